@@ -357,6 +357,22 @@ pub fn scramble(toks: &[(u8, String)], rng: &mut Rng) -> String {
         if after_inline && !w.contains('\n') { format!("\n{}", w) } else { w.to_string() }
     })
 }
+/// insert comments into whitespace runs: an inline comment ending the line, or a block comment inside / ending the line
+pub fn comment_in(toks: &[(u8, String)], rng: &mut Rng) -> String {
+    let mut n = 0;
+    map_ws_runs(toks, &is_ws_text, |run, after_inline| {
+        if after_inline {
+            return run.to_string();
+        }
+        n += 1;
+        match rng.below(7) {
+            0 => format!(" -- c{}\n", n),
+            1 => format!(" /* c{} */ ", n),
+            2 => format!(" /* c{} */\n", n),
+            _ => run.to_string(),
+        }
+    })
+}
 pub fn collapse(toks: &[(u8, String)]) -> String {
     map_ws_runs(toks, &is_ws_text, |run, after_inline| {
         if after_inline && run.contains('\n') { "\n".to_string() } else { " ".to_string() }
@@ -747,6 +763,13 @@ pub const FUSION_PROBES: &[(&str, &str)] = &[
     ("ansi", "SELECT a\n, b\n, c FROM t -- trailing comment that is very long and exceeds the maximum line length for sure\n"),
     ("ansi", "SELECT a /* c1 */ , /* c2 */ b FROM t\n"),
     ("ansi", "SELECT a -- c1\n, b -- c2\nFROM t\n"),
+    ("ansi", "SELECT --c\n a FROM t\n"),
+    ("ansi", "SELECT /* c */\n a FROM t\n"),
+    ("ansi", "SELECT DISTINCT --c\n a FROM t\n"),
+    ("ansi", "SELECT a, --c\n b FROM --c\n t WHERE --c\n a = 1 ORDER BY --c\n a\n"),
+    ("ansi", "SELECT a FROM t JOIN --c\n u ON --c\n t.a = u.a\n"),
+    ("ansi", "SELECT CASE --c\n WHEN a THEN b END, f( --c\n a) FROM t\n"),
+    ("ansi", "WITH x AS --c\n (SELECT 1) SELECT * FROM x\n"),
     ("postgres", "SELECT a :: int, b -> 'x', c ->> 'y' FROM t\n"),
     ("postgres", "SELECT 1 - -2, a @> b, a || - b FROM t\n"),
     ("bigquery", "SELECT a [ OFFSET ( 0 ) ] , b . c FROM t\n"),
@@ -822,6 +845,7 @@ pub fn main(args: &Args) {
                 ("corpus", f.text.clone()),
                 ("scrambled", scramble(&toks, &mut rng)),
                 ("collapsed", collapse(&toks)),
+                ("commented", comment_in(&toks, &mut rng)),
             ];
             if f.text.len() < 600 && synth_budget > 0 {
                 let n = if args.thorough() { 12 } else { 6 };
